@@ -53,3 +53,25 @@ Definition ItemOk (it : item) : Prop :=
   end.
 
 Definition WfModule (m : list item) (toks : list tk) : Prop := Forall TokOk toks /\ Forall ItemOk m.
+
+(* ---------------- types: the Prop-level counterpart of ty_ok ---------------- *)
+Inductive TyOk : ty -> Prop :=
+| TO_ref p args : path_ok p = true -> Forall TyOk args -> TyOk (TyRef p args)
+| TO_arr t : TyOk t -> TyOk (TyArr t)
+| TO_tuple ts : Forall TyOk ts -> TyOk (TyTuple ts)
+| TO_union ts : Forall TyOk ts -> TyOk (TyUnion ts)
+| TO_lit s : TyOk (TyLit s)
+| TO_typeof p : path_ok p = true -> TyOk (TyTypeof p)
+| TO_fun ps r : Forall (fun p : str * bool * ty => is_binding_name (fst (fst p)) = true /\ TyOk (snd p)) ps -> TyOk r -> TyOk (TyFun ps r)
+| TO_obj ms ix : Forall (fun m : key * bool * ty => key_ok (fst (fst m)) = true /\ TyOk (snd m)) ms ->
+                 Forall (fun i : str * ty * ty => is_binding_name (fst (fst i)) = true /\ TyOk (snd (fst i)) /\ TyOk (snd i)) ix -> TyOk (TyObj ms ix).
+Fixpoint tsize (t : ty) : nat :=
+  match t with
+  | TyRef _ args => S (list_sum (map tsize args))
+  | TyArr t => S (tsize t)
+  | TyTuple ts | TyUnion ts => S (list_sum (map tsize ts))
+  | TyLit _ | TyTypeof _ => 1
+  | TyFun ps r => S (list_sum (map (fun p : str * bool * ty => tsize (snd p)) ps) + tsize r)
+  | TyObj ms ix => S (list_sum (map (fun m : key * bool * ty => tsize (snd m)) ms) +
+                      list_sum (map (fun i : str * ty * ty => tsize (snd (fst i)) + tsize (snd i)) ix))
+  end.
